@@ -569,7 +569,20 @@ def run_check(prop, tier, replay=None):
           "Print Assumptions: %d theorem(s) closed under the global context; axioms: %s" % (proof.get("print_assumptions", {}).get("closed", 0), ", ".join(proof["axioms"]) or "none"),
           "extraction: ExtrOcamlBasic only (bool, option, unit, list, prod, sumbool, sumor mapped to OCaml; Z/N/positive/nat kept as extracted inductives); ocaml/driver.ml line protocol",
           "correspondence harness: harness/props/%s.py generators + harness/worker.py running pyp0f from %s (CPython %s, Scapy, h11 as installed)" % (prop.lower(), REPO, PY),
-          "hand-written Gallina model of the anchored code path (coq/Model/*.v): tied to the code only by the differential run recorded under 'evaluations'"]
+          "hand-written Gallina model of the anchored code path (coq/Model/*.v): tied to the code by the differential run recorded under 'evaluations'"]
+    spec = getattr(mod, "GEN_TIE", None)
+    if spec:
+        spec = [spec] if isinstance(spec, str) else list(spec)
+        groups = [x for x in spec if x in GEN_GROUPS]
+        if groups:
+            tb.append("translator translate/py2coq.py (fail-closed Python-ast -> Gallina, groups %s): its reading of the accepted Python subset; the generated "
+                      "definitions are proved equal to the model on every run (Gen/GenP_<group>.v, GenOptP.v, GenHdrP.v)" % ", ".join(groups))
+        if "imp" in spec:
+            tb.append("translator translate/imp2coq.py (impersonate/tcp.py -> random-tape monad): its reading of the subset, the attribute table base packet -> abstract base, "
+                      "the literally checked hint prelude / tcp_payload / random_string, constant folding by evaluation with /repo's enum classes; Gen/GenImpP.v + GenImpC.v re-checked on every run")
+        if "sig" in spec:
+            tb.append("translator translate/sig2coq.py (database/parse/utils.py, wildcard.py, signatures/tcp.py, signatures/mtu.py -> text/res monad): its reading of the subset, "
+                      "int() = py_int, str methods = Model/Text.v list functions, module tables by evaluation; Gen/GenSigP.v + GenSigC.v re-checked on every run")
     tb += getattr(mod, "TRUSTED", [])
     ev["coverage"] = {
         "obligations": proof["obligations"], "discharged": proof["discharged"],
